@@ -185,8 +185,31 @@ func (fl Flow) mustPrecedeWith(a InstrPred, target ssa.Instruction) bool {
 func (fl Flow) Between(from, to ssa.Instruction, x InstrPred) ssa.Instruction {
 	seen := map[*ssa.BasicBlock]bool{}
 	var hit ssa.Instruction
+	// only blocks from which `to` is still reachable lie on a path from → to
+	var canReachTo map[*ssa.BasicBlock]bool
+	if to != nil {
+		canReachTo = map[*ssa.BasicBlock]bool{to.Block(): true}
+		for changed := true; changed; {
+			changed = false
+			for _, b := range fl.Fn.Blocks {
+				if canReachTo[b] {
+					continue
+				}
+				for _, s := range b.Succs {
+					if canReachTo[s] && !(fl.Skip != nil && fl.Skip(b, s)) {
+						canReachTo[b] = true
+						changed = true
+						break
+					}
+				}
+			}
+		}
+	}
 	var walk func(blk *ssa.BasicBlock, start int)
 	walk = func(blk *ssa.BasicBlock, start int) {
+		if canReachTo != nil && !canReachTo[blk] {
+			return
+		}
 		for i := start; i < len(blk.Instrs) && hit == nil; i++ {
 			ins := blk.Instrs[i]
 			if ins == to {
